@@ -224,7 +224,7 @@ theorem scoped_create_core (d : Doc) (name : Text) (v : Node) (hn : d.noTarget =
   obtain ⟨us, h1, h2, _⟩ := traced_setValueInAttrset (grow := true) (N := d.next)
     (A := fun _ => False) (S := fun s => d.next ≤ s) (ni := true) (fun _ h => h) (Or.inl rfl)
     (ts := layerAsSet d.next (newLayerOf d)) (within_empty_set (Nat.le_refl _)) false name v
-    (scratchDoc (clearBody d) (newLayerOf d)) (by simp [hddn])
+    (scratchDoc (clearBody d) (newLayerOf d)) (by simp)
   refine ⟨us, h2, h1, ?_⟩
   rw [setValue_no_layers d name v hn hne hh h0]
   simp only [hfmt, hnp, Bool.false_eq_true, if_false]
@@ -243,7 +243,7 @@ theorem scoped_create_core (d : Doc) (name : Text) (v : Node) (hn : d.noTarget =
     simp only
     have hfr := applyAll_frame us (scratchDoc (clearBody d) (newLayerOf d))
     obtain ⟨S'', hs1, _, hs3⟩ := set_on_empty_nonempty d.next true false name v
-      (scratchDoc (clearBody d) (newLayerOf d)) rfl (by simp [hddn]) hr
+      (scratchDoc (clearBody d) (newLayerOf d)) rfl (by simp) hr
     have hS : S'' = applyAllNode us (layerAsSet d.next (newLayerOf d)) := by
       have hs1' : (setValueInAttrset (layerAsSet d.next (newLayerOf d)) false name v
           (scratchDoc (clearBody d) (newLayerOf d))).2.scratch = some S'' := hs1
